@@ -449,7 +449,11 @@ def deepMerge (sw : Sw) (m1 m2 : VPairs) : VPairs := dmImpl sw m2 m1
 
 /-- `map.deep-merge` (modules/map.rs:41). -/
 def deepMergeF (sw : Sw) : List Value → R
-  | [] | [_] => .error .missingArg
+  | [] => .error .missingArg
+  | [m1] =>
+    match assertMap m1 with
+    | .error e => .error e
+    | .ok _ => .error .missingArg
   | [m1, m2] =>
     match assertMap m1 with
     | .error e => .error e
@@ -483,7 +487,11 @@ def modNested (sw : Sw) (last : Value) : List Value → VPairs → Option VPairs
 
 /-- `map.deep-remove` (modules/map.rs:57). -/
 def deepRemoveF (sw : Sw) : List Value → R
-  | [] | [_] => .error .missingArg
+  | [] => .error .missingArg
+  | [m] =>
+    match assertMap m with
+    | .error e => .error e
+    | .ok _ => .error .missingArg
   | m :: k :: ks =>
     match assertMap m with
     | .error e => .error e
@@ -555,7 +563,11 @@ def findSub (sub : List Char) : List Char → Option Nat
 
 /-- `str-index` (string.rs:165). -/
 def strIndexF : List Value → R
-  | [] | [_] => .error .missingArg
+  | [] => .error .missingArg
+  | [s] =>
+    match assertString s with
+    | .error e => .error e
+    | .ok _ => .error .missingArg
   | [s, sub] =>
     match assertString s with
     | .error e => .error e
@@ -584,7 +596,18 @@ def insertCore (s ins : List Char) (index : Int) : List Char :=
 
 /-- `str-insert` (string.rs:185). -/
 def strInsertF : List Value → R
-  | [] | [_] | [_, _] => .error .missingArg
+  | [] => .error .missingArg
+  | [s] =>
+    match assertString s with
+    | .error e => .error e
+    | .ok _ => .error .missingArg
+  | [s, ins] =>
+    match assertString s with
+    | .error e => .error e
+    | .ok _ =>
+      match assertString ins with
+      | .error e => .error e
+      | .ok _ => .error .missingArg
   | [s, ins, idx] =>
     match assertString s with
     | .error e => .error e
@@ -661,7 +684,11 @@ def limitArg : Option Value → Except Err (Option Nat)
 
 /-- `string.split` (string.rs:128). -/
 def splitF : List Value → R
-  | [] | [_] => .error .missingArg
+  | [] => .error .missingArg
+  | [s] =>
+    match assertString s with
+    | .error e => .error e
+    | .ok _ => .error .missingArg
   | s :: sep :: rest =>
     if 1 < rest.length then .error .tooManyArgs else
     match assertString s with
